@@ -802,7 +802,15 @@ impl Server {
                         
                         // Handle SYNC/PSYNC commands that need connection access
                         if command == "SYNC" || command == "PSYNC" {
-                            sync_response = Some(self.handle_sync_command(&command, parts, id)?);
+                            // With a password configured the replication handshake needs AUTH like
+                            // everything else; unauthenticated it falls through to the NOAUTH gate
+                            let authenticated = self.config.password.is_none()
+                                || self.connections.with_connection(id, |conn| {
+                                    conn.state == ConnectionState::Authenticated
+                                }).unwrap_or(false);
+                            if authenticated {
+                                sync_response = Some(self.handle_sync_command(&command, parts, id)?);
+                            }
                         }
                     }
                 }
